@@ -84,6 +84,9 @@ def plan(tier: str, seed: int) -> Plan:
             conds.append(Condition(f"sched{k}:{s}:{q}", "schedule", H, "schedule",
                                    {"qtext": q, "spine": s, "leaf": "int", "sched": k, "maxn": 2}, T * 2, required=False,
                                    bounds=f"two async evaluations interleaved under {k} symbolic scheduling choices"))
+    for q, s in [("$[?@.a == _.k]", "objarr"), ("$[?@.a == $[0].a]", "objarr"), ("$[?$[?@.a == _.k]]", "objarr"), ("$[?count($[?@.a == 1]) > 0 && @.a]", "objarr")]:
+        conds.append(Condition(f"reuse:{s}:{q}", "reuse", H, "reuse", {"qtext": q, "spine": s, "leaf": "int", "leaf2": "int", "maxn": 2}, T * 2, required=False,
+                               bounds="one compiled query awaited twice on one document object: second filter context, optional in-place edit between"))
     for q, s in [("$.a | $.b", "obj2"), ("$..* & $.a.*", "nest1"), ("$[?@.a == $[0].a]", "objarr"), ("$..*", "nest1")] + (
             [("$.a | $.b | $.a", "obj2"), ("$[0] | $[1]", "arr"), ("$..a", "deep")] if thorough else []):
         conds.append(Condition(f"forms:{s}:{q}", "forms", H, "forms", {"qtext": q, "spine": s, "maxn": 1}, T * 2, required=False,
